@@ -26,7 +26,7 @@ from hypothesis import strategies as st
 
 import nfc.llcp.pdu as pdu
 from vlib import ref_llcp as ref
-from vlib.engine import Leg, Violation, unexpected
+from vlib.engine import Leg, Violation, unexpected, twin_env
 
 PROPERTY = "C11"
 LEVEL = "exploration"
@@ -1147,3 +1147,10 @@ LEGS = [
              "target, empty corpus and seeded corpus shards; non-trivial "
              "count = coverage features reported by libFuzzer."),
 ]
+
+# the same searches with every nfc logger enabled down to the lowest level
+# (code that only runs, or only evaluates its arguments, when logging is on)
+_byl = dict((lg.name, lg) for lg in LEGS)
+LEGS += [twin_env(_byl[n], "log", {"VERIF_LOG": "debug"}, quick=q, thorough=t,
+                  shards_quick=2)
+         for n, q, t in [('roundtrip', 1500, 15000)] if n in _byl]
